@@ -32,8 +32,24 @@ let parse_triples s = (* "a:b:c,..." *)
   if s = "" then [] else
   List.filter_map (fun x -> match String.split_on_char ':' x with
     | [a; b; c] -> Some (ios a, ios b, ios c) | _ -> None) (String.split_on_char ',' s)
+(* built entries of a builder dump: "id:caller:bucket[:priority],..." *)
+let parse_built s =
+  if s = "" then [] else
+  List.filter_map (fun x -> match String.split_on_char ':' x with
+    | [a; b; c; d] -> Some (ios a, ios b, ios c, ios d) | [a; b; c] -> Some (ios a, ios b, ios c, -1) | _ -> None) (String.split_on_char ',' s)
 let after_eq s = match String.index_opt s '=' with Some i -> String.sub s (i + 1) (String.length s - i - 1) | None -> s
 let has_prefix p s = String.length s >= String.length p && String.sub s 0 (String.length p) = p
+
+(* the resource-control wrapper: SUB ... g=<rc>:<group>:<gate>:<icpt>; the scripted controller's group priorities *)
+let group_pri g = nat (match int_of_nat g with 1 -> 1 | 2 -> 8 | 3 -> 12 | _ -> 0)
+let bg_group = nat 9
+let gspec_of_sub (fields : string list) (override : int) =
+  let g = List.find_opt (fun f -> has_prefix "g=" f) fields in
+  match g with
+  | Some f -> (match String.split_on_char ':' (after_eq f) with
+      | [rc; grp; gate; ic] -> ({ g_rc = (rc = "1"); g_override = nat override; g_group = nat (ios grp); g_gate = nat (ios gate) }, ic = "1")
+      | _ -> ({ g_rc = false; g_override = nat override; g_group = O; g_gate = O }, false))
+  | None -> ({ g_rc = false; g_override = nat override; g_group = O; g_gate = O }, false)
 
 type sc = { id : string; spec : string; mutable evs : string list list }
 
@@ -63,6 +79,7 @@ let split_tag t = match String.index_opt t '@' with
 let blackbox (s : sc) =
   let subs = Hashtbl.create 64 and rets = Hashtbl.create 64 in
   let expect = Hashtbl.create 64 and cancels = Hashtbl.create 64 in
+  let icb = Hashtbl.create 16 and ica = Hashtbl.create 16 and icspec = Hashtbl.create 16 in
   let fails = ref 0 in
   let oracle name detail = incr fails; Printf.printf "ORACLE\t%s\t%s\t%s\n" s.id name detail in
   let badids = ref 0 in
@@ -73,6 +90,11 @@ let blackbox (s : sc) =
   List.iter (fun e -> match e with
     | "SUB" :: c :: rest ->
         Hashtbl.replace subs (ios c) true;
+        (match rest with
+         | _ :: p :: _ :: _ :: mode :: _ ->
+             let (g, ic) = gspec_of_sub rest (max 0 (ios p)) in
+             if ic then Hashtbl.replace icspec (ios c) (g, has_prefix "async" mode)
+         | _ -> ());
         (* expected payload (the caller's own number; the collapse key for a collapsed ResolveLock) and whether the
            harness will ever cancel this call's context *)
         (match rest with
@@ -83,6 +105,8 @@ let blackbox (s : sc) =
         let prev = try Hashtbl.find rets c with Not_found -> [] in
         Hashtbl.replace rets c ((kind, ios p, late = "1") :: prev)
     | "HANG" :: c :: _ -> Hashtbl.replace cancels (ios c) true; oracle "exactly_once" ("caller " ^ c ^ " did not return (watchdog)")
+    | "ICB" :: c :: _ -> Hashtbl.replace icb (ios c) (1 + (try Hashtbl.find icb (ios c) with Not_found -> 0))
+    | "ICA" :: c :: kind :: p :: _ -> Hashtbl.replace ica (ios c) ((kind, ios p) :: (try Hashtbl.find ica (ios c) with Not_found -> []))
     | "PANIC" :: c :: r -> oracle "no_panic" ("caller " ^ c ^ " panicked: " ^ String.concat " " r)
     | "HARNESS" :: r -> oracle "harness" (String.concat " " r)
     | "END" :: rest ->
@@ -120,7 +144,18 @@ let blackbox (s : sc) =
       (* an error is the call's OWN error: "context canceled" only if its own context was cancelled *)
       if kind = "ctx" && not (Hashtbl.mem cancels c) then
         oracle "own_error" (Printf.sprintf "caller %d returned `context canceled` although its own context was never cancelled" c);
-      if late then oracle "bounded_by_timeout" (Printf.sprintf "caller %d returned later than 20x its time-out" c)) rs) subs;
+      if late then oracle "bounded_by_timeout" (Printf.sprintf "caller %d returned later than 20x its time-out" c)) rs;
+    (* an RPC interceptor on the call's context sees a synchronous call exactly once (unless the request gate refused it),
+       with the call's own response; an asynchronous call at most once *)
+    (match Hashtbl.find_opt icspec c with
+     | Some (g, is_async) when returns = 1 ->
+         let nb = (try Hashtbl.find icb c with Not_found -> 0) and la = (try Hashtbl.find ica c with Not_found -> []) in
+         let want = int_of_nat (icpt_runs bg_group g is_async) in   (* predicted by the wrapper model *)
+         if nb <> want || List.length la <> want then
+           oracle "interceptor_once" (Printf.sprintf "the RPC interceptor of caller %d ran %d/%d times (before/after), expected %d" c nb (List.length la) want);
+         List.iter (fun (k, p) -> if k = "ok" && p <> (try Hashtbl.find expect c with Not_found -> c) then
+           oracle "own_response" (Printf.sprintf "the RPC interceptor of caller %d was handed the response of request %d" c p)) la
+     | _ -> ())) subs;
   !fails
 
 (* ---------------------------------------------------------------- white-box acceptor (one store) *)
@@ -131,18 +166,21 @@ let whitebox (scid : string) (label : string) (cfg_limit : int) (nh : int) (evl 
   let built_at = Hashtbl.create 64 and ret_kind = Hashtbl.create 64 in
   (* several connections: one core instance with a lane = (connection, forwarded host) per stream; the connection a request
      is sent on is only decided by getClientAndSend, the acceptor looks it up in the caller's Send event *)
-  let conn_of = Hashtbl.create 64 and subp = Hashtbl.create 64 in
+  let conn_of = Hashtbl.create 64 and subp = Hashtbl.create 64 and gspecs = Hashtbl.create 64 in
   let lane conn h = ios h + nh * (max 0 (ios conn)) in
   let maxid = ref 0 and round_idx = ref [] in
   Array.iteri (fun i e -> match e with
     | "ROUND" :: _ :: b :: _ ->
         round_idx := i :: !round_idx;
-        List.iter (fun (id, c, _) -> maxid := max !maxid id; if not (Hashtbl.mem built_at c) then Hashtbl.replace built_at c i) (parse_triples (after_eq b))
+        List.iter (fun (id, c, _, _) -> maxid := max !maxid id; if not (Hashtbl.mem built_at c) then Hashtbl.replace built_at c i) (parse_built (after_eq b))
     | "SB" :: conn :: _ :: _ :: pairs :: _ ->
         List.iter (fun (id, c) -> maxid := max !maxid id; if not (Hashtbl.mem conn_of c) then Hashtbl.replace conn_of c (max 0 (ios conn))) (parse_pairs pairs)
-    | "SUB" :: c :: h :: p :: _ :: _ :: mode :: _ ->
+    | "SUB" :: c :: h :: p :: _ :: _ :: mode :: rest ->
         let a = try ignore (Str.search_forward (Str.regexp_string "async") mode 0); true with Not_found -> false in
-        Hashtbl.replace subp (ios c) (ios h, max 0 (ios p), a)
+        let (g, _) = gspec_of_sub rest (max 0 (ios p)) in
+        Hashtbl.replace gspecs (ios c) g;
+        (* predicted, not observed: the priority the wrapper gives the request *)
+        Hashtbl.replace subp (ios c) (ios h, int_of_nat (gate_priority bg_group group_pri g), a)
     | "RET" :: c :: kind :: _ -> if not (Hashtbl.mem ret_kind (ios c)) then Hashtbl.replace ret_kind (ios c) kind
     | _ -> ()) evs;
   (* calls that the watchdog had to give up on: their final "ctx" return is the harness's own cancellation *)
@@ -213,7 +251,8 @@ let whitebox (scid : string) (label : string) (cfg_limit : int) (nh : int) (evl 
     | "SUB" :: _ -> () (* see `ensure` *)
     | "ROUND" :: r :: b :: l :: _ ->
         bump "rounds" 1;
-        let built = List.sort compare (parse_triples (after_eq b)) and left = parse_triples (after_eq l) in
+        let quads = parse_built (after_eq b) in
+        let built = List.sort compare (List.map (fun (a, b, c, _) -> (a, b, c)) quads) and left = parse_triples (after_eq l) in
         List.iter (fun (i, c, _) -> if c < 0 then raise (Reject ("builder", Printf.sprintf "entry of id %d carries no caller" i))) built;
         List.iter (fun (_, c, _) -> fetch c) built;
         List.iter (fun (c, _, _) -> if c >= 0 then fetch c) left;
@@ -249,6 +288,9 @@ let whitebox (scid : string) (label : string) (cfg_limit : int) (nh : int) (evl 
            | Built j when int_of_nat j = i -> ()
            | _ -> raise (Reject ("ids_fresh", Printf.sprintf "caller %d was given id %d, the model allocates the next consecutive id (next_id=%d after the round)" c i (int_of_nat (next_id (st ()))))));
           if int_of_nat (e_host (entry c)) mod nh <> h then raise (Reject ("own_response", Printf.sprintf "request of caller %d put in the bucket of host %d" c h))) built;
+        (* the priority each built entry carries in the real builder is the one the wrapper model predicts *)
+        List.iter (fun (_, c, _, op) -> if op >= 0 && op <> int_of_nat (pri !xs (nat c)) then
+          raise (Reject ("priority", Printf.sprintf "caller %d is queued with priority %d, the model of the resource-control wrapper predicts %d" c op (int_of_nat (pri !xs (nat c)))))) quads;
         if int_of_nat (next_id (st ())) <> ios r then
           raise (Reject ("ids_fresh", Printf.sprintf "idAlloc is %s after the round, the model has %d" r (int_of_nat (next_id (st ())))));
         (* callers that gave up after buildWithLimit had selected them *)
@@ -315,6 +357,12 @@ let whitebox (scid : string) (label : string) (cfg_limit : int) (nh : int) (evl 
     | "INJ" :: "sendpanic" :: _ -> capply "ids_fresh" Restart
     | "RET" :: c :: kind :: p :: _ ->
         let c = ios c in
+        let g = (try Hashtbl.find gspecs c with Not_found -> { g_rc = false; g_override = O; g_group = O; g_gate = O }) in
+        (* the wrapper's verdict is predicted from the model and compared with what the call returned *)
+        if not (gate_admits bg_group g) && kind <> "fail:gatereq" then
+          raise (Reject ("gate", Printf.sprintf "caller %d must be refused by OnRequestWait, it returned %s" c kind));
+        if kind = "ok" && gate_result bg_group g (Some (Resp (nat 0))) = Some GRespErr then
+          raise (Reject ("gate", Printf.sprintf "caller %d returned a response although OnResponseWait failed" c));
         if Hashtbl.mem pre_aborted c then ()
         else (match kind with
          | "ok" ->
@@ -331,6 +379,15 @@ let whitebox (scid : string) (label : string) (cfg_limit : int) (nh : int) (evl 
                      if a whole other round lies in between, the build came after the abort and must skip the entry *)
                   Hashtbl.replace deferred c (at, k)
               | _ -> do_abort c k)
+         | "fail:gatereq" ->
+             if gate_admits bg_group g then raise (Reject ("gate", Printf.sprintf "caller %d was refused although its request gate is open" c));
+             (match e_st (entry c) with Fresh -> () | _ -> raise (Reject ("gate", Printf.sprintf "caller %d was refused by OnRequestWait but its request reached the batch client" c)))
+         | "fail:gateresp" ->
+             ensure c;
+             if gate_result bg_group g (Some (Resp (nat 0))) <> Some GRespErr then raise (Reject ("gate", Printf.sprintf "caller %d: response gate error without a failing OnResponseWait" c));
+             if e_comp (entry c) = [] then raise (Reject ("gate", Printf.sprintf "caller %d: response gate error but no response had been dispatched to its entry" c));
+             capply "exactly_once" (Return (nat c));
+             (match e_ret (entry c) with Some (Resp _) -> () | _ -> raise (Reject ("gate", Printf.sprintf "caller %d: response gate error on a call whose inner result is not a response" c)))
          | "fail:init" ->
              ensure c;
              if e_comp (entry c) = [] then capply "exactly_once" (InitFail (nat c));
